@@ -1043,6 +1043,34 @@ def dest_matrix(tier):
             for k, links, use in _hows(tier, n):
                 yield _dest_case(form, ph, ('chain', k, links, use), n)
                 n += 1
+            # invalid usage / known findings: absolute FILE-NAME without RELATIVITY (KF-C12-2), absolute FILE-NAME
+            # with a RELATIVITY that the argument accepts (KF-C12-1)
+            for j in range(3):
+                yield _dest_case(form, ph, ('absname', None, j), n)
+                n += 1
+            for rel in ('act', 'tmp', 'cd', 'sym'):
+                yield _dest_case(form, ph, ('absname', rel, n), n)
+                n += 1
+
+
+ABSNAME_DIRS = ['{HOME}/cs', '{HOME}/hd2', '{ROOT}/absarea', '{HOME}/cs/hd']
+
+
+def _abs_name_expr(b, rel, j, leaf, sym_rel):
+    """<absolute dir>/LEAF as FILE-NAME (constant, from one string symbol, or directory from a string symbol),
+    without RELATIVITY (rel None) or with one (an option, or 'sym': -rel P with P = -rel-<sym_rel> .)"""
+    d = ABSNAME_DIRS[j % len(ABSNAME_DIRS)]
+    name = d + '/' + leaf
+    via = (j // len(ABSNAME_DIRS) + j) % 3
+    if via == 0:
+        frags = [['l', name]]
+    elif via == 1:
+        frags = [['s', b.newstr(name)]]
+    else:
+        frags = [['s', b.newstr(d)], ['l', '/' + leaf]]
+    if rel == 'sym':
+        rel = 'sym:' + b.newpath({'rel': sym_rel, 'lead': None, 'name': [['l', '.']], 'q': 0})
+    return {'rel': rel, 'lead': None, 'name': frags, 'q': j % 2}
 
 
 def _dest_case(form, ph, how, n):
@@ -1053,7 +1081,10 @@ def _dest_case(form, ph, how, n):
     nested = (n // 3) % 2 == 1 and form not in ('file:new', 'file:empty')  # (file does not make directories)
     nested_new = (n // 3) % 2 == 1
     src_leaf = 'f1'
-    if how[0] in ('opt', 'optonly'):
+    if how[0] == 'absname':
+        leaf, is_dir = _leaf(want, 0, False)
+        expr = _abs_name_expr(b, how[1], how[2], leaf, 'tmp')
+    elif how[0] in ('opt', 'optonly'):
         leaf, is_dir = _leaf(want, 0, nested_new if want == 'new' else nested)
         if how[0] == 'optonly':
             expr = {'rel': how[1], 'lead': None, 'name': [], 'q': 0}
@@ -1086,6 +1117,11 @@ READ_WANT = {'cd': 'd', 'dir-contents': 'd', 'dir_contents_of': 'd', 'exe': 'x',
 ACT_KIND = {'act_exe': 'exe', 'act_arg': 'arg', 'act_file': 'file', 'act_interp': 'interp'}
 
 
+def _usable_rels(site, ph):
+    acc = accepted(site, ph)
+    return [k for k in KINDS if acc.get(k) is True or (acc.get(k) == 'maybe' and k != 'result')]
+
+
 def read_phases(site):
     if site.startswith('act_'):
         return ['act']
@@ -1104,6 +1140,9 @@ def read_matrix(tier):
         for ph in read_phases(site):
             hows = [('default',)] + [('opt', k) for k in KINDS + ['here']]
             hows += [('chain', k, links, use) for k, links, use in _hows(tier, n)]
+            # invalid usage / KF-C12-1: absolute FILE-NAME together with a RELATIVITY that the argument accepts
+            rels = _usable_rels('existing' if site == 'act_arg' else site, ph)
+            hows += [('absname', rels[(n + j) % len(rels)], n + j) for j in range(3)] + [('absname', 'sym', n)]
             for how in hows:
                 if site == 'dir_contents_of' and how[0] == 'default':
                     continue  # default relativity undocumented
@@ -1126,6 +1165,10 @@ def _read_case(site, ph, how, n):
         expr = {'rel': how[1], 'lead': None, 'name': b.frags(leaf, n, is_dir or '/' in leaf), 'q': n % 3}
         if any(t == 's' for t, _ in expr['name']) and expr['q'] == 2:
             expr['q'] = 0
+    elif how[0] == 'absname':
+        leaf, is_dir = _leaf(want, 0, nested)
+        sym_rel = _usable_rels(real_site, ph)[n % 2]
+        expr = _abs_name_expr(b, how[1], how[2], leaf, sym_rel)
     else:
         _, k, links, use = how
         sym, pos = b.chain(k, links)
